@@ -1,5 +1,5 @@
 # replay of a bounded stand-in violation (C06): re-run native/c06_measure.py
 import sys
-print('bosonic MeasureThreshold on mode 1, outcome 1 (probability 0.276): mode 0 has (<n>, <x>, <p>) = [0.4458, 0.9426, 0.1606], the conditional state has [0.3615, 0.6787, 0.3409]')
+print('Catstate(1.2, 0.0, p=0.0); BSgate; homodyne(phi=1.57) of q[1] post-selected on 0.35: bosonic leaves q[0] with (<n>, <x>, <x_0.8>, <p>, <x^2>) = [0.6961, 0.29, 0.202, 0.0, 3.8323], the conditional state has [0.4833, 0.2464, 0.0441, -0.1778, 3.4065]')
 print('REPLAY-VIOLATION')
 sys.exit(1)
